@@ -32,6 +32,7 @@ POLY = "POLY"          # unit-polymorphic literal (0, inf, nan)
 ONE = {}               # dimensionless
 
 TERM_CAP = 160
+TERM_BOUND_TAGS = {"count_how"}
 
 
 def term_size(t):
@@ -327,6 +328,8 @@ def join(a: Val, b: Val) -> Val:
                 o = b.tags[k]
                 tags[k] = join(v, o) if (v is not None and o is not None) else (v if o is None else o)
             elif b.tags[k] == v:
+                if k in TERM_BOUND_TAGS and a.term != b.term:
+                    continue             # equal marks on different values (k vs k + 1): the choice between them is not that mark
                 tags[k] = v
     # rows of a zero-initialised buffer that is filled with probability vectors (every row is written: the
     # allocation counts sum to the number of rows — stated assumption)
